@@ -1039,20 +1039,15 @@ func (c *checker) sizeValue(sr *sizeRun, n, m int, exits []encExit) {
 	td := time.Now()
 	defer func() { szDecTime += time.Since(td) }()
 	in.Desc = "decode"
-	decoders := []struct {
-		name string
-		run  func(b []byte, into interface{}) error
-	}{
-		{"DecodeBytes", func(b []byte, into interface{}) error { return rlp.DecodeBytes(b, into) }},
-		{"NewStream(reader, len).Decode", func(b []byte, into interface{}) error {
-			return rlp.NewStream(sevenReader{bytes.NewReader(b)}, uint64(len(b))).Decode(into)
-		}},
-		{"Decode(io.Reader)", func(b []byte, into interface{}) error { return rlp.Decode(sevenReader{bytes.NewReader(b)}, into) }},
-	}
-	for _, d := range decoders {
+	var srcIdeal uint64
+	for di := range decStyles {
+		d := &decStyles[di]
 		got := t.fresh()
 		var err error
-		if msg, where := mc.CatchStack(func() { err = d.run(ref, got) }); msg != "" {
+		a0 := totalAlloc()
+		msg, where := mc.CatchStack(func() { err = d.run(ref, got) })
+		alloc := totalAlloc() - a0
+		if msg != "" {
 			c.report(fmt.Sprintf("%s: decode panic on own encoding: %s at %s", t.name, normMsg(msg), where), fmt.Sprintf("%s via %s: %s", what, d.name, msg), in)
 			return
 		}
@@ -1060,14 +1055,29 @@ func (c *checker) sizeValue(sr *sizeRun, n, m int, exits []encExit) {
 			c.report(fmt.Sprintf("%s: own encoding rejected by the decoder (%s)", t.name, errClass(err)), fmt.Sprintf("%s via %s: %v", what, d.name, err), in)
 			return
 		}
-		var where, detail string
-		if msg := mc.Catch(func() { where, detail = diffIface(expect, t.view(got), t.only) }); msg != "" {
+		var where2, detail string
+		if msg := mc.Catch(func() { where2, detail = diffIface(expect, t.view(got), t.only) }); msg != "" {
 			c.report(fmt.Sprintf("%s: decoded value unusable (accessor panic: %s)", t.name, normMsg(msg)), fmt.Sprintf("%s via %s", what, d.name), in)
 			return
 		}
-		if where != "" {
-			c.report(fmt.Sprintf("%s: field %s not preserved by decode(encode(v))", t.name, where), fmt.Sprintf("%s via %s: %s", what, d.name, detail), in)
+		if where2 != "" {
+			c.report(fmt.Sprintf("%s: field %s not preserved by decode(encode(v))", t.name, where2), fmt.Sprintf("%s via %s: %s", what, d.name, detail), in)
 			return
+		}
+		// allocation and capacity of the accepted decode (alloc.go); judged before the
+		// value is used for anything else
+		ain := in
+		ain.Desc = "alloc: valid encoding / " + d.name
+		c.judgeAlloc(&allocCase{owner: t.name, custom: hasCustomDecoder(got), style: d, family: "valid encoding at a boundary size", what: what, data: ref, in: ain,
+			accepted: true, got: got, alloc: alloc,
+			again: func() uint64 {
+				g := t.fresh()
+				a0 := totalAlloc()
+				mc.Catch(func() { d.run(ref, g) })
+				return totalAlloc() - a0
+			}})
+		if di == 0 {
+			srcIdeal = walkMem(got).ideal
 		}
 		var re []byte
 		if msg, where := mc.CatchStack(func() { re, err = rlp.EncodeToBytes(got) }); msg != "" {
@@ -1082,9 +1092,10 @@ func (c *checker) sizeValue(sr *sizeRun, n, m int, exits []encExit) {
 		st.Decodes++
 		c.r.Count("sz_decodes_compared_with_the_value", 1)
 	}
+	c.allocDerived(sc, what, n, m, tree, ref, srcIdeal)
 	if lists > 256 {
 		c.sampleOnce("sz|"+sc.kind, map[string]interface{}{"phase": "S container sizes", "case": what, "lists_in_the_value": lists, "encoding_len": len(ref),
-			"encoding": short(ref), "encodings_equal_to_the_reference": fmt.Sprintf("%d exits x %d buffer histories", nUsed, nh), "decoder_entries": len(decoders)})
+			"encoding": short(ref), "encodings_equal_to_the_reference": fmt.Sprintf("%d exits x %d buffer histories", nUsed, nh), "decoder_entries": len(decStyles)})
 	}
 }
 
